@@ -256,13 +256,38 @@ def build_model(lcf, spec, recipe, name="m"):
     return mini.build_model(lcf, {"assets": assets, "links": links, "attackers": attackers}, name)
 
 
-def random_model_recipe(spec, rnd, n_assets, density=0.5, attackers=0, types=None):
+def transitive_assocs(spec):
+    """indices of the associations one of whose role names occurs under a transitive operator somewhere in spec.
+    (On the pinned tree the transitive closure has no visited set - DESIGN defect (c) - so a cycle along such an
+    association makes attack-graph generation run for ever; floors that are not about C01 keep those links acyclic.)"""
+    names = set()
+
+    def walk(e, under):
+        if isinstance(e, dict):
+            if e.get("type") == "field" and under:
+                names.add(e["name"])
+            for v in e.values():
+                walk(v, under or e.get("type") == "transitive")
+        elif isinstance(e, list):
+            for v in e:
+                walk(v, under)
+    walk(spec["assets"], False)
+    return {k for k, a in enumerate(spec["associations"]) if a["leftField"] in names or a["rightField"] in names}
+
+
+def random_model_recipe(spec, rnd, n_assets, density=0.5, attackers=0, types=None, acyclic=None):
+    """acyclic: set of association indices whose links must go from a lower to a higher asset index
+    (default: transitive_assocs(spec))"""
     types = types or [a["name"] for a in spec["assets"] if not a["isAbstract"]]
+    if acyclic is None:
+        acyclic = transitive_assocs(spec)
     assets = [[rnd.choice(types), "a%d" % i] for i in range(n_assets)]
     links = []
     for k, a in enumerate(spec["associations"]):
         for i, (ti, _) in enumerate(assets):
             for j, (tj, _) in enumerate(assets):
+                if k in acyclic and not i < j:
+                    continue
                 if is_sub(spec, ti, a["leftAsset"]) and is_sub(spec, tj, a["rightAsset"]) and rnd.random() < density:
                     links.append([k, i, j])
     atts = []
@@ -419,3 +444,148 @@ def catalogue_language(name):
         parts = name.split(":")
         return chain_language(parts[1].split("/"), sib="sib" in parts[2:], reverse="rev" in parts[2:])
     raise KeyError(name)
+
+
+# ---------------------------------------------------------------------------------------------------
+# C15: languages over <= 3 types from a compact recipe
+
+def forests(names):
+    """every assignment of a parent (or None) to each name without cycles, as [[name, parent], ...]"""
+    import itertools
+    out = []
+    for parents in itertools.product([None] + list(names), repeat=len(names)):
+        ok = True
+        for n, p in zip(names, parents):
+            seen = {n}
+            while p is not None:
+                if p in seen:
+                    ok = False
+                    break
+                seen.add(p)
+                p = parents[names.index(p)]
+            if not ok:
+                break
+        if ok:
+            out.append([[n, p] for n, p in zip(names, parents)])
+    return out
+
+
+def assoc_sets(names):
+    """every multiset of <= 2 association ends (left, right) over names (ordered pairs incl. reflexive ones); two
+    associations come once with different names (L0, L1) and once with the same name (L); role names l<k>/r<k>"""
+    import itertools
+    pairs = [(l, r) for l in names for r in names]
+    yield []
+    for (l, r) in pairs:
+        yield [["L0", l, "l0", r, "r0"]]
+    for i, (l, r) in enumerate(pairs):
+        for (l2, r2) in pairs[i:]:
+            yield [["L0", l, "l0", r, "r0"], ["L1", l2, "l1", r2, "r1"]]
+            yield [["L", l, "l0", r, "r0"], ["L", l2, "l1", r2, "r1"]]
+
+
+def expr_pool(spec, tname, ops="all"):
+    """ops: "nav" (roles, two hops, transitive, subType), "sets" (nav + union / intersection / difference),
+    "all" (sets + subType over a union).
+    [(expression, declared type of its value)] : the well-typed navigation expressions (MAL typing: role names
+    navigable from tname or an ancestor; set operators need a common ancestor and have the closest one as type;
+    e[S] needs S below the type of e; f* needs f navigable from its own target type) over the roles visible from
+    tname, up to two hops / one set operator"""
+    F = fields_of(spec, tname)
+    out = []
+    proper = lambda t: [d for d in descendants(spec, t) if d != t]
+    for f, (tf, _) in F.items():
+        out.append((field(f), tf))
+        for g, (tg, _) in fields_of(spec, tf).items():
+            out.append((collect(field(f), field(g)), tg))
+        if f in fields_of(spec, tf) and fields_of(spec, tf)[f][0] == tf:
+            out.append((trans(f), tf))
+        for s in proper(tf):
+            out.append((sub(s, field(f)), s))
+    for f, (tf, _) in F.items():
+        for g, (tg, _) in F.items():
+            if f == g:
+                continue
+            l = lca(spec, tf, tg)
+            if l is None or ops == "nav":
+                continue
+            out.append((union(field(f), field(g)), l))
+            out.append((inter(field(f), field(g)), l))
+            out.append((diff(field(f), field(g)), l))
+            if ops == "all":
+                for s in proper(l):
+                    out.append((sub(s, union(field(f), field(g))), s))
+    return out
+
+
+def shape(e):
+    """operator skeleton of an expression (no names)"""
+    k = e["type"]
+    if k in ("field", "attackStep", "variable"):
+        return {"field": "f", "attackStep": "step", "variable": "var"}[k]
+    if k in ("collect", "union", "intersection", "difference"):
+        return "%s(%s,%s)" % (k, shape(e["lhs"]), shape(e["rhs"]))
+    if k in ("transitive", "subType"):
+        return "%s(%s)" % (k, shape(e["stepExpression"]))
+    return k
+
+
+def final_step(e):
+    while e["type"] == "collect":
+        e = e["rhs"]
+    return e["name"] if e["type"] == "attackStep" else None
+
+
+def c15_spec(recipe):
+    """langspec dict of a C15 recipe
+       {"types": [[name, parent-or-null], ...], "assocs": [[name, left, lrole, right, rrole], ...],
+        "mode": "structure" | "full" | "ill", "ops": "nav" | "sets" | "all" (full only), "ill": {...}}
+    structure: every root declares step t, every type X declares step o<X> (no reaches clauses).
+    full: in addition every type declares one step s<i> per expression of expr_pool (reaching step o<type of the
+          expression> on it) and, when it has a role, a variable v = its first role used by step sv.
+    ill:  structure plus ONE dangling reference described by recipe["ill"]:
+          {"kind": "super", "type": X, "to": name}            X extends an undeclared asset
+          {"kind": "assoc", "k": i, "left": name|null, "right": name|null}   association ends replaced
+          {"kind": "step", "type": X, "exprs": [...], "extend_in": Y|null}  step `bad` on X with these reaches
+                 expressions (if extend_in: X declares `bad` without reaches and sub-type Y adds them with '+>')"""
+    types = recipe["types"]
+    assets = []
+    for (n, p) in types:
+        steps = [attack_step("o" + n, "or")]
+        if p is None:
+            steps.insert(0, attack_step("t", "or"))
+        assets.append(asset(n, sup=p, steps=steps))
+    assocs = [assoc(a[0], a[1], a[2], a[3], a[4]) for a in recipe["assocs"]]
+    spec = lang(assets, assocs)
+    mode = recipe.get("mode", "structure")
+    if mode == "full":
+        base = copy.deepcopy(spec)
+        for a in spec["assets"]:
+            pool = expr_pool(base, a["name"], recipe.get("ops", "all"))
+            for i, (e, ty) in enumerate(pool):
+                a["attackSteps"].append(attack_step("s%s%d" % (a["name"], i), "or", reaches=[collect(e, step("o" + ty))]))
+            if pool:
+                e, ty = pool[0]
+                a["variables"].append({"name": "v" + a["name"], "stepExpression": e})
+                a["attackSteps"].append(attack_step("sv" + a["name"], "or", reaches=[collect(var("v" + a["name"]), step("o" + ty))]))
+    elif mode == "ill":
+        ill = recipe["ill"]
+        if ill["kind"] == "super":
+            decl(spec, ill["type"])["superAsset"] = ill["to"]
+        elif ill["kind"] == "assoc":
+            a = spec["associations"][ill["k"]]
+            if ill.get("left"):
+                a["leftAsset"] = ill["left"]
+            if ill.get("right"):
+                a["rightAsset"] = ill["right"]
+        elif ill["kind"] == "step":
+            d = decl(spec, ill["type"])
+            if ill.get("extend_in"):
+                d["attackSteps"].append(attack_step("bad", "or"))
+                decl(spec, ill["extend_in"])["attackSteps"].append(
+                    attack_step("bad", "or", reaches=ill["exprs"], overrides=False))
+            else:
+                d["attackSteps"].append(attack_step("bad", "or", reaches=ill["exprs"]))
+        else:
+            raise ValueError(ill["kind"])
+    return spec
